@@ -2,6 +2,7 @@
 // (1) the factory table: every row x operand rotation x type supplied / not supplied, evaluated against the row's type
 // rule (fixed / given / absent / borrowed-with-exception-equivalence);
 // (2) every addition sequence of length <= 5 over 3 element types for each growing container.
+#include <algorithm>
 #include <memory>
 
 #include "zoo/zoo.hpp"
@@ -111,6 +112,26 @@ namespace {
             rep.count("states");
          }
       }
+      // parameter list whose parameters are all unnamed (they share the Lexicon's unnamed identifier), as in f(int, double):
+      // every addition yields a parameter of its own, with the type given, and the product keeps growing
+      {
+         auto* m = lex.make_mapping(region, ipr::Mapping_level{ 1 });
+         const ipr::Parameter_list& pl = m->parameters();
+         const ipr::Type& t = pl.type();
+         std::vector<const ipr::Type*> want;
+         std::vector<const ipr::Parameter*> made;
+         auto& unnamed = lex.get_identifier(u8"");
+         for (std::size_t i = 0; i < seq.size(); ++i) {
+            const ipr::Parameter* p = m->param(i % 2 ? static_cast<const ipr::Name&>(unnamed) : static_cast<const ipr::Name&>(lex.get_identifier(u8"same")), *ty[seq[i]]);
+            rep.count("transitions");
+            if (&p->type() != ty[seq[i]]) fail("parameter-list(repeated-name):type-not-the-one-given", { seq.begin(), seq.begin() + i + 1 }, "a parameter added with a name already used in the list does not report the type it was given");
+            if (std::find(made.begin(), made.end(), p) != made.end()) fail("parameter-list(repeated-name):not-a-new-parameter", { seq.begin(), seq.begin() + i + 1 }, "adding a parameter with a name already used in the list returned an existing parameter");
+            made.push_back(p);
+            want.push_back(ty[seq[i]]);
+            check_product("parameter-list(repeated-name)", { seq.begin(), seq.begin() + i + 1 }, t, want);
+            rep.count("states");
+         }
+      }
       // expression list
       {
          auto* x = lex.make_expr_list();
@@ -147,6 +168,44 @@ namespace {
    }
 }
 
+   // Declarations given a type report exactly that type: every ordered pair (and triple) of function types drawn from
+   // 3 signatures x {plain, "C" linkage, fastcall convention} declared under ONE name in one scope.
+   void function_types_differing_in_transfer()
+   {
+      const int NS = 3, NX = 3, N = NS * NX;
+      for (int a = 0; a < N; ++a) for (int b = 0; b < N; ++b) for (int c3 = -1; c3 < N; ++c3) {
+         ipr::impl::Lexicon lex;
+         ipr::impl::Translation_unit unit{ lex };
+         const ipr::Lexicon& l = lex;
+         std::vector<const ipr::Function*> ft;
+         const ipr::Transfer* xf[NX] = { nullptr, &lex.get_transfer_from_linkage(l.c_linkage()), &lex.get_transfer_from_convention(lex.get_calling_convention(u8"fastcall")) };
+         for (int sg = 0; sg < NS; ++sg) {
+            ipr::impl::Warehouse<ipr::Type> w;
+            if (sg > 0) w.push_back(l.int_type());
+            if (sg > 1) w.push_back(l.char_type());
+            for (int x = 0; x < NX; ++x) ft.push_back(x == 0 ? &lex.get_function(lex.get_product(w), l.int_type()) : &lex.get_function(lex.get_product(w), l.int_type(), *xf[x]));
+         }
+         auto& name = lex.get_identifier(u8"f");
+         auto* region = unit.global_region()->make_subregion();
+         std::vector<long long> seq{ a, b };
+         if (c3 >= 0) seq.push_back(c3);
+         std::vector<const ipr::Decl*> decls;
+         for (auto k : seq) {
+            const ipr::Decl* d = region->declare_fun(name, *ft[std::size_t(k)]);
+            decls.push_back(d);
+            rep.count("transitions"); rep.count("states");
+            for (std::size_t i = 0; i < decls.size(); ++i)
+               if (&decls[i]->type() != ft[std::size_t(seq[i])]) { fail("declare_fun:type-not-the-one-given", seq, "a function declared with type #" + std::to_string(seq[i]) + " (signature " + std::to_string(seq[i] / NX) + ", transfer " + std::to_string(seq[i] % NX) + ") reports another type once a same-named function whose type differs only in the transfer is declared"); break; }
+            auto idx = lex.make_id_expr(*d);
+            if (&static_cast<const ipr::Expr&>(*idx).type() != ft[std::size_t(k)]) fail("id-expr:borrowed:declaration", seq, "the id-expression of a function declaration does not report that declaration's type");
+         }
+         std::vector<const ipr::Type*> want;
+         for (auto k : seq) want.push_back(ft[std::size_t(k)]);
+         check_product("scope(functions)", seq, static_cast<const ipr::Region&>(*region).bindings().type(), want);
+         rep.count("traces");
+      }
+   }
+
 int main(int argc, char** argv)
 {
    opt = vf::parse_options(argc, argv);
@@ -155,7 +214,8 @@ int main(int argc, char** argv)
    if (verbose) {
       auto text = vf::slurp(opt.replay);
       auto ops = vf::json_int_array(text, "ops");
-      if (vf::json_int(text, "container") == 1) { std::printf("replay C09: container additions %s\n", vf::jarr(ops).c_str()); containers(ops); }
+      if (vf::json_int(text, "container") == 1 and text.find("declare_fun") != std::string::npos) function_types_differing_in_transfer();
+      else if (vf::json_int(text, "container") == 1) { std::printf("replay C09: container additions %s\n", vf::jarr(ops).c_str()); containers(ops); }
       else { int rot = ops.empty() ? 0 : int(ops[0]); std::printf("replay C09: factory table, operand rotation %d\n", rot); table(rot); }
       for (auto& [k, v] : rep.viols) std::printf("violated: %s  (%s)\n", k.c_str(), v.what.c_str());
       return rep.viols.empty() ? 0 : 1;
@@ -174,6 +234,7 @@ int main(int argc, char** argv)
          containers(seq);
       }
    }
+   if (opt.shard == 1 % opt.shards) function_types_differing_in_transfer();
    if (opt.shard == 0) {
       rep.count("distinct_nontrivial", (long long) zoo::rows().size());
       rep.info("space", vf::JObj{}.num("factory_rows", (long long) zoo::rows().size()).num("operand_rotations", 12).num("max_addition_sequence_length", maxlen).num("element_types", 3).done());
